@@ -304,7 +304,7 @@ pub fn scenarios(_tier: &str) -> Vec<Scenario> {
         }
     }
     // E: malformed request (error response) followed by more bytes
-    for m in [Malformed::ClAndTe, Malformed::TwoClDifferent, Malformed::TeGzip] {
+    for m in [Malformed::ClAndTe, Malformed::TwoClDifferent, Malformed::TeGzip, Malformed::ChunkSizeTwoPow64, Malformed::ChunkExtControlByte] {
         for first_ok in [false, true] {
             let mut reqs = vec![];
             let mut progs = vec![];
@@ -313,7 +313,11 @@ pub fn scenarios(_tier: &str) -> Vec<Scenario> {
                 progs.push(HandlerProgram::ok(BodySpec::Bytes(b"one".to_vec())).pend(1));
             }
             let k = reqs.len();
-            reqs.push(RequestSpec::new("POST", k).malformed(m));
+            reqs.push(if m.in_head() {
+                RequestSpec::new("POST", k).malformed(m)
+            } else {
+                RequestSpec::new("POST", k).chunked(vec![ChunkSpec::plain(b"ab"), ChunkSpec::plain(b"cd")]).malformed(m)
+            });
             progs.push(HandlerProgram::ok(BodySpec::Bytes(b"bad".to_vec())));
             reqs.push(RequestSpec::new("GET", k + 1));
             progs.push(HandlerProgram::ok(BodySpec::Bytes(b"after".to_vec())));
